@@ -48,7 +48,8 @@ class Sched(Engine):
         end = rng.choice([None, None, n, n - n // 10, n // 2 + 1])
         if start is not None and end is not None and start >= end:
             end = None
-        return {'chunklen': c, 'stepsize': step, 'start': start, 'end': end, 'rem': rng.random() < 0.7}
+        return {'chunklen': c, 'stepsize': step, 'start': start, 'end': end, 'rem': rng.random() < 0.7,
+                'accessmode': rng.choice([None, None, None, 'r'])}
 
     def gen_array(self, rng):
         if self.big:
@@ -90,7 +91,7 @@ class Sched(Engine):
             if a in ('start', 'advance', 'close', 'abandon'):
                 acts.append({'act': a, 'g': rng.randrange(ngen)})
             elif a in ('enter', 'exit'):
-                acts.append({'act': a})
+                acts.append({'act': a, 'accessmode': rng.choice([None, None, None, 'r', 'r+'])} if a == 'enter' else {'act': a})
             elif a == 'read':
                 acts.append({'act': 'read', 'idx': self.gen_idx(rng, n)})
             elif a == 'read_openfail':
@@ -198,9 +199,12 @@ class _SState:
     def live(self):
         return [f'g{g}' for g in self.gens] + [f'c{i}' for i in range(len(self.ctx))]
 
-    def note_open(self, who):
+    def note_open(self, who, accessmode=None):
         if not self.live():
             self.opener = who
+            self.map_mode = accessmode or self.mode      # the first opener's mode is the mode of the shared map
+        elif (accessmode or self.mode) != self.map_mode:
+            self.probe('actor_joined_with_another_accessmode')
 
     def note_finish(self, who):
         others = [x for x in self.live() if x != who]
@@ -262,11 +266,11 @@ class _SState:
             if g in self.gens or g in self.gdone:
                 return 'skip'
             p = self.sc['gens'][g]
-            self.note_open(f'g{g}')
+            self.note_open(f'g{g}', p.get('accessmode'))
             if len(self.live()) >= 1:
                 self.probe('two_actors_live')
             self.gens[g] = A.iterchunks(p['chunklen'], stepsize=p['stepsize'], startindex=p['start'],
-                                        endindex=p['end'], include_remainder=p['rem'])
+                                        endindex=p['end'], include_remainder=p['rem'], accessmode=p.get('accessmode'))
             self.gpos[g] = 0
             return 'start:' + self.advance(g)
         if act == 'advance':
@@ -293,10 +297,10 @@ class _SState:
         if act == 'enter':
             if len(self.ctx) >= 2:
                 return 'skip'
-            self.note_open(f'c{len(self.ctx)}')
+            self.note_open(f'c{len(self.ctx)}', a.get('accessmode'))
             if len(self.live()) >= 1:
                 self.probe('two_actors_live')
-            cm = A.open_array()
+            cm = A.open_array(accessmode=a.get('accessmode'))
             cm.__enter__()
             self.ctx.append(cm)
             return 'entered'
@@ -367,9 +371,15 @@ class _SState:
                 return 'skip_readonly'
             idx = self.resolve(a['idx'])
             v = a['v']
+            readonly_map = bool(self.live()) and getattr(self, 'map_mode', self.mode) == 'r'
             try:
                 A[idx] = v
             except Exception as e:
+                if readonly_map and isinstance(e, OSError):
+                    # the shared map was opened read-only by the actor that is still using it: a refused write
+                    # is not a lost write
+                    self.probe('write_refused_while_map_is_readonly')
+                    return 'write_refused'
                 raise Viol('sched.write', f'raises:{type(e).__name__}', str(e)[:200])
             self.model[idx] = v
             self.nwrites += 1
